@@ -12,6 +12,7 @@ mod oracle_misc;
 mod oracle_quant;
 mod oracle_ribbon;
 mod rng;
+mod sweep;
 
 fn main() {
     let args: Vec<String> = std::env::args().collect();
@@ -46,6 +47,8 @@ fn main() {
             let r = oracle::run(&args[2], &ops, &obs);
             oracle::print_report(&args[2], ops.len(), &r);
         }
+        // sweep <conv|lfo|adsr|quant> <part> <parts> <dir>: exhaustive sweeps of finite domains (thorough tier)
+        Some("sweep") => sweep::main(&args),
         _ => {
             eprintln!("usage: verif-harness dump-consts | gen <stream> <seed> <n> | exec");
             std::process::exit(2);
